@@ -829,6 +829,50 @@ pub fn run_c07(opts: &Opts, out: &mut Emitter) {
             v
         });
     }
+    // twins: two entries of one list that are written differently and become equal only once the arguments are in
+    // and reduced (a parameter next to the literal it will receive, two parameters that receive the same value), in
+    // every list of a transaction: no stage and no reduction may treat the list as a set
+    {
+        use tx3_tir::model::core::Type;
+        let addr = || tir::Expression::Address(ADDR_A.to_vec());
+        let pairs: Vec<(&str, Vec<tir::Expression>)> = vec![
+            ("param+literal", vec![param("qa", Type::Address), addr()]),
+            ("literal+param", vec![addr(), param("qa", Type::Address)]),
+            ("param+param", vec![param("qa", Type::Address), param("qb2", Type::Address)]),
+            ("param+param+literal", vec![param("qa", Type::Address), param("qb2", Type::Address), addr()]),
+        ];
+        for (pn, pair) in pairs.iter() {
+            for slot in 0..4u8 {
+                let mut t = empty_tx();
+                t.fees = fees_param();
+                match slot {
+                    0 => t.signers = Some(tir::Signers { signers: pair.clone() }),
+                    1 => t.references = pair.clone(),
+                    2 => {
+                        for e in pair {
+                            t.outputs.push(tir::Output { address: e.clone(), datum: tir::Expression::None, amount: ada(2_000_000), optional: false });
+                        }
+                    }
+                    _ => {
+                        for e in pair {
+                            t.metadata.push(tir::Metadata { key: tir::Expression::Number(7), value: e.clone() });
+                        }
+                    }
+                }
+                let mut case = complete_case(&mut g, t);
+                case.args.insert("qa".into(), ArgValue::Address(ADDR_A.to_vec()));
+                case.args.insert("qb2".into(), ArgValue::Address(ADDR_A.to_vec()));
+                let thorough = opts.thorough;
+                let name = format!("{pn}@{slot}");
+                out.case("twin-sweep", || {
+                    let s = if thorough { None } else { Some(&mut sampler) };
+                    let mut v = case_json(&case, observe(&case, true, s));
+                    v["shape"] = json!(name);
+                    v
+                });
+            }
+        }
+    }
     // arg-kind sweep: a parameter of every declared type met by an argument of every kind (the substitution does
     // not look at the declared type, so each pair must come out as the argument's own expression), in a datum,
     // behind a coercion and inside a list
